@@ -97,6 +97,9 @@ def gen(rng, idx, tier):
         scripts = rng.sample(S.ALL_SCRIPTS, 3)
     if rng.random() < 0.25 and "Arab" not in scripts:
         scripts[-1] = "Arab"
+    elif len(scripts) >= 2 and not (set(scripts) & set(S.RTL_SCRIPTS)) and rng.random() < 0.3:
+        # (keep right-to-left scripts as frequent as they were in a smaller pool of scripts)
+        scripts[0] = rng.choice(S.RTL_SCRIPTS)
     chain = rng.random() < 0.06
     if chain:
         # kerning whose script sets overlap only pairwise (cross-script classes), see C05
@@ -243,6 +246,8 @@ def gen(rng, idx, tier):
     all_tags = _tags(list(scripts) + kscripts)
     kerned_tags = _tags(kscripts)
     r = rng.random()
+    if ambiguous_only and rng.random() < 0.5:
+        r = 0.99       # (the script whose kerning is all dropped is most telling when undeclared)
     given_order = False
     if r < 0.70:
         stratum = "default"
